@@ -49,9 +49,15 @@ for p in props:
         out.append('**Not applicable to this technique**: ' + na.get(pid, ''))
         out.append('')
 out += ['-' * 117, '', '## 5. Properties not claimed', '']
-for p in props:
-    if p['id'] not in cfg:
-        out.append('* **%s** — %s' % (p['id'], na.get(p['id'], '')))
+_unclaimed = [p for p in props if p['id'] not in cfg]
+for p in _unclaimed:
+    out.append('* **%s** — %s' % (p['id'], na.get(p['id'], '')))
+if not _unclaimed:
+    out += ['None: every property is claimed for the part of its statement that is a per-call contract on sequential code. C04, C09, C19 and C20 were',
+            'declared not applicable as a whole in the first version of this document and are PARTIAL claims now; what stays out of reach of the technique',
+            'for each of them (the regex-driven parts of the GRL parser; the forward closure and completeness of the backward search; thread schedules and',
+            'interference inside a salience level; crashes, truncation and intermediate directory states of a checkpoint) is listed under **Not covered** in',
+            'their §4 entries and in `coverage.not_covered` of their evidence files, and a check of those properties says nothing about it.']
 out += ['', '-' * 117, '', '## 6. Genuine defects found', '',
         'Every entry was reproduced on the real crate by a witness (`witness/src/*.rs`, name in brackets) before anything was changed. Repairs are',
         'minimal unguarded `fix:` commits in /repo (the 199 baseline tests pass with each); what is not small and safe to repair is an open finding.', '',
